@@ -146,6 +146,12 @@ class C17(Check):
                    "L2 model TmatmulClip is bound by Meta events (constexpr find_kfirst/find_klast tables, chosen vector width); the block structure itself (which block is clipped with which unroll pair) is a transcription, not observed: mismatches there would only show as DRIFT or as missing coverage, never as a false alarm",
                    "default block sizes only (FASTOR_MATMUL_OUTER/INNER_BLOCK_SIZE not set)"]
 
+    def configs(self, ctx):
+        if ctx.tier == "quick":
+            return list(QUICK_CFGS)
+        # every ISA under C++14, and the three natively distinct vector widths again under C++17 (if-constexpr dispatch in _tmatmul)
+        return ["%s-14-O2" % i for i in ALL_ISAS] + ["%s-17-O2" % i for i in ("sse2", "avx2", "avx512")]
+
     def model_checks(self, ctx):
         model_check(ctx, "MC_TmatmulClip", "MC_TmatmulClip_%s.cfg" % ctx.tier, timeout=2400)
 
